@@ -63,7 +63,7 @@ var Properties = map[string]PropDef{
 			{Name: "types.ZZC16Infer", Quick: map[string]int{"K": 1, "D": 2}},
 			{Name: "types.ZZC16Infer", Quick: map[string]int{"K": 3, "D": 1, "LEAN": 2}},
 			{Name: "types.ZZC16Infer", Quick: map[string]int{"K": 2, "D": 1}, ThoroughOnly: true},
-			{Name: "types.ZZC16Infer", Quick: map[string]int{"K": 3, "D": 1, "LEAN": 3}, ThoroughOnly: true},
+			{Name: "types.ZZC16Infer", Quick: map[string]int{"K": 3, "D": 1, "LEAN": 3, "FIXNAMES": 1}, ThoroughOnly: true},
 		},
 	},
 	"C11": {
